@@ -80,11 +80,15 @@ class DataReader(object):
             # Check for the End-Of-Data marker.
             if eod_pattern.match(line):
                 self.EOD = i
+                return
 
             # Remove an initial period on non-EOD lines as per RFC 821 4.5.2.
             elif line[0:1] == b'.':  # line[0] is an integer
                 line = line[1:]
                 self.lines[i] = line
+
+            # Only message data counts towards the size limit.
+            self.size += len(line)
 
     def add_lines(self, piece):
         last = 0
@@ -103,13 +107,36 @@ class DataReader(object):
         if piece == b'':
             raise ConnectionLost()
 
-        self.size += len(piece)
-        if self.max_size and self.size > self.max_size:
-            self.EOD = self.i
-            raise MessageTooBig()
-
         self.add_lines(piece)
+        if self.too_big:
+            raise MessageTooBig()
         return self.EOD is None
+
+    def _pending_size(self):
+        # What the line being assembled adds to the message size.
+        if self.EOD is not None:
+            return 0
+        line = self.lines[self.i]
+        if line[0:1] == b'.':
+            if not line[1:].strip() and len(line) <= 1000:
+                return 0  # May still turn out to be the End-Of-Data marker.
+            return len(line) - 1
+        return len(line)
+
+    @property
+    def too_big(self):
+        """True if the message data seen so far exceeds ``max_size``. This
+        depends on the data alone, not on how it was split into pieces."""
+        if not self.max_size:
+            return False
+        return self.size + self._pending_size() > self.max_size
+
+    def _discard_data(self):
+        # The message is refused anyway. Keep only the line being assembled,
+        # so that the End-Of-Data marker is still recognized.
+        if self.EOD is None:
+            self.lines = [self.lines[self.i]]
+            self.i = 0
 
     def return_all(self):
         assert self.EOD is not None
@@ -129,9 +156,20 @@ class DataReader(object):
 
         """
         self.from_recv_buffer()
-        while self.recv_piece():
-            pass
-        return self.return_all()
+        too_big = self.too_big
+        while self.EOD is None:
+            # A message over the size limit is still read to its end, so
+            # that the rest of it is not taken for commands.
+            if too_big:
+                self._discard_data()
+            try:
+                self.recv_piece()
+            except MessageTooBig:
+                too_big = True
+        data = self.return_all()
+        if too_big:
+            raise MessageTooBig()
+        return data
 
 
 # vim:et:fdm=marker:sts=4:sw=4:ts=4
